@@ -244,7 +244,21 @@ func run(mk func(resolve.Client) resolve.Resolver, c resolve.Client, budget int6
 	if exhausted {
 		return "STEP-BUDGET-EXHAUSTED"
 	}
-	return uni.Encode(g, err)
+	return encode(g, err)
+}
+
+// encode is the text two results are compared by: the harness's own
+// numbering-independent encoding and, as the property is stated "after
+// canonicalisation", the graph's own canonical form as well.
+func encode(g *resolve.Graph, err error) string {
+	s := uni.Encode(g, err)
+	if err != nil || g == nil {
+		return s
+	}
+	if cerr := g.Canon(); cerr != nil {
+		return s + "\n--- Graph.Canon fails: " + cerr.Error()
+	}
+	return s + "\n--- canonical form\n" + g.String()
 }
 
 var sampleOnce sync.Map
@@ -261,7 +275,7 @@ func sequential(r *ev.Run, sd sysDef, u *uni.Universe, rng *rand.Rand, maxRoots 
 	base := map[resolve.VersionKey]string{}
 	for _, rt := range roots {
 		base[rt] = run(sd.mk, u.Client(nil), budget, rt)
-		if n := strings.Count(base[rt], "\n"); n >= 4 && !strings.HasPrefix(base[rt], "ERROR") {
+		if n := strings.Count(strings.SplitN(base[rt], "\n--- ", 2)[0], "\n"); n >= 4 && !strings.HasPrefix(base[rt], "ERROR") {
 			r.Nontrivial(fmt.Sprintf("%s|%p|%s", sd.name, u, rt.String()))
 			r.Count("nontrivial:"+sd.name, 1)
 			if _, done := sampleOnce.LoadOrStore(sd.name, true); !done {
@@ -309,7 +323,7 @@ func sequential(r *ev.Run, sd sysDef, u *uni.Universe, rng *rand.Rand, maxRoots 
 		if cc.Exhausted() {
 			return "STEP-BUDGET-EXHAUSTED"
 		}
-		return uni.Encode(g, err)
+		return encode(g, err)
 	}
 	for _, rt := range roots { // repeat
 		differ("repeat", rt, resolveShared(rt))
@@ -537,7 +551,7 @@ func childMain(r *ev.Run) {
 						}
 						for _, i := range perm {
 							g, err := res.Resolve(context.Background(), roots[i])
-							got := uni.Encode(g, err)
+							got := encode(g, err)
 							mu.Lock()
 							total++
 							finish = append(finish, fmt.Sprint(gi, ":", i))
